@@ -9,7 +9,7 @@ import sys
 import tempfile
 from math import prod
 
-from checks.c06_replay import _vals, _build, perturb, lowp_problem
+from checks.c06_replay import _vals, _build, perturb, lowp_problem, dump_state_summary, placement_problems
 
 
 def _orig_vals(cfg, vals, name, i, shape, k=None):
@@ -63,6 +63,7 @@ def worker(rank, world, cfgfile, initfile, outfile):
             p.grad = _orig_vals(cfg, vals, "g", i, origs[i], k)[s:e].clone() if present else None
         opt.step()
     json.dump([p.detach().tolist() for p in params], open(outfile, "w"))
+    dump_state_summary(opt, params, outfile)
     dist.destroy_process_group()
 
 
@@ -99,6 +100,10 @@ def replay(record):
         if p.returncode != 0:
             err = (p.stderr.read() or "").strip().splitlines()
             problems.append(f"rank {r} failed: {err[-1] if err else p.returncode}")
+    if not problems and hsdp and (info.get("signature") or {}).get("kind") == "state-placement":
+        reps = hsdp["replicate"]
+        gsz = reps if hsdp.get("group", -1) == -1 else hsdp["group"]
+        problems += placement_problems(d, [[(q0 + q) * nshard + t for q in range(gsz)] for t in range(nshard) for q0 in range(0, reps, gsz)])
     if not problems:
         flat = [_orig_vals(cfg, vals, "w", i, origs[i]) for i in range(len(origs))]
         for srank in range(nshard):
